@@ -125,11 +125,43 @@ fn run_case(plan: &Plan) -> Judged {
 	let n_steps = if huge { n_steps.min(160) } else { n_steps };
 	let mut tag = 0u32;
 	let mut reopens = 0;
+	// version order: half of the cases keep MANY versions of a few hot keys (timestamps from a
+	// wide range, 70% of the operations on one or two user keys), so that the versions of one
+	// user key span several leaves and separators of the same user key meet in one parent
+	let ts_span: u64 = if ts_order && rng.chance(1, 2) { *rng.pick(&[64u64, 1000, 1_000_000]) } else { 5 };
+	let hot: Vec<usize> = if ts_span > 5 { (0..rng.range(1, 2)).map(|_| rng.below(ukeys.len() as u64) as usize).collect() } else { vec![] };
+	if ts_span > 5 {
+		j.count("version_order.many_versions_cases", 1);
+	}
+	let mut clock = 0u64;
 	for step in 0..n_steps {
-		let uk = ukeys[(rng.below(ukeys.len() as u64).min(rng.below(ukeys.len() as u64 * 2))) as usize % ukeys.len()].clone();
-		let ts = rng.range(1, 6);
+		let uk = if !hot.is_empty() && rng.chance(7, 10) {
+			ukeys[hot[rng.below(hot.len() as u64) as usize]].clone()
+		} else {
+			ukeys[(rng.below(ukeys.len() as u64).min(rng.below(ukeys.len() as u64 * 2))) as usize % ukeys.len()].clone()
+		};
+		clock += 1;
+		let opk = rng.below(20);
+		let ts = if ts_span > 5 {
+			let existing: Vec<u64> = if opk >= 9 && opk <= 16 && rng.chance(3, 4) {
+				// deletes and lookups mostly aim at versions that exist
+				model.range(MKey::Ts(uk.clone(), std::cmp::Reverse(u64::MAX))..=MKey::Ts(uk.clone(), std::cmp::Reverse(0))).filter_map(|(k, _)| if let MKey::Ts(_, t) = k { Some(t.0) } else { None }).collect()
+			} else {
+				vec![]
+			};
+			if !existing.is_empty() {
+				existing[rng.below(existing.len() as u64) as usize]
+			} else if rng.chance(2, 3) {
+				// mostly fresh timestamps in commit order (a monotonic clock), some from anywhere
+				clock
+			} else {
+				rng.range(1, ts_span.max(clock))
+			}
+		} else {
+			rng.range(1, ts_span)
+		};
 		let (ek, mk) = enc(&uk, ts);
-		match rng.below(20) {
+		match opk {
 			0..=8 => {
 				tag += 1;
 				let len = if huge && rng.chance(1, 12) {
@@ -184,7 +216,7 @@ fn run_case(plan: &Plan) -> Judged {
 			17 | 18 => {
 				// range scan between two keys
 				let uk2 = ukeys[rng.below(ukeys.len() as u64) as usize].clone();
-				let (e2, m2) = enc(&uk2, rng.range(1, 6));
+				let (e2, m2) = enc(&uk2, rng.range(1, ts_span.max(clock).max(6)));
 				let ((lo_e, lo_m), (hi_e, hi_m)) = if mk <= m2 { ((ek.clone(), mk.clone()), (e2, m2)) } else { ((e2, m2), (ek.clone(), mk.clone())) };
 				let want: Vec<(Vec<u8>, Vec<u8>)> = model.range((Bound::Included(lo_m), Bound::Excluded(hi_m))).map(|(_, v)| v.clone()).collect();
 				let got: Result<Vec<(Vec<u8>, Vec<u8>)>, String> = (|| {
